@@ -105,7 +105,9 @@ def classify_mismatches(ctx, res, what):
             div += 1
             ctx.notes.append("DIVERGENCE %s: %s" % (m["class"], m["what"]))
             continue
-        path = save_replay(ctx, "%s-seed%d-%s.json" % (what, ctx.seed, m["class"].replace("/", "_")[:60]), m)
+        n = sum(1 for v in ctx.violations if v.get("cls") == m["class"])
+        path = save_replay(ctx, "%s-seed%d-%s%s.json" % (what, ctx.seed, m["class"].replace("/", "_")[:60],
+                                                          "" if n == 0 else "-%d" % n), m)
         exp, got = json.dumps(m.get("expected"))[:300], json.dumps(m.get("got"))[:300]
         ctx.violations.append({"cls": m["class"], "what": "%s: %s (expected %s, got %s)" % (
             m["class"], m["what"], exp, got), "replay": path})
